@@ -34,13 +34,27 @@ fn length_case(rng: &mut Rng, idx: u64, rec: &mut Rec) {
     // a chunked coding on an HTTP/1.0 response is not defined and ignored: the length still rules
     let te10 = http10 && rng.chance(1, 3);
     rec.cov(&format!("length/status-{}{}", if redirect { "3xx" } else { "other" }, if te10 { "/http10-with-ignored-chunked" } else { "" }));
+    // what stands next to the length field must not matter: fields with an empty value, long ones,
+    // the field name in other case, optional whitespace around the value, fields after it
+    let before = *rng.pick(&["", "", "X-Trace:\r\n", "X-Trace: \r\nX-Other:\t\r\n", "Content-Type: text/plain\r\n", "Set-Cookie: a=b; Path=/\r\nSet-Cookie: c=d\r\n"]);
+    let after = *rng.pick(&["", "", "X-After:\r\n", "Vary: *\r\n"]);
+    let cl_name = *rng.pick(&["Content-Length", "Content-Length", "content-length", "CONTENT-LENGTH"]);
+    let (ows1, ows2) = *rng.pick(&[(" ", ""), (" ", ""), ("", ""), ("  ", " "), ("\t", "\t ")]);
+    if !before.is_empty() || !after.is_empty() {
+        rec.cov("length/neighbouring-fields");
+    }
     let head = format!(
-        "HTTP/1.{} {} X\r\n{}{}Content-Length: {}\r\n\r\n",
+        "HTTP/1.{} {} X\r\n{}{}{}{}:{}{}{}\r\n{}\r\n",
         if http10 { 0 } else { 1 },
         status,
         if redirect { "Location: /next\r\n" } else { "" },
         if te10 { "Transfer-Encoding: chunked\r\n" } else { "" },
-        n
+        before,
+        cl_name,
+        ows1,
+        n,
+        ows2,
+        after
     );
     // one case in six: the request used Expect: 100-continue, the caller gave up waiting, and the late
     // 100 arrives in the same window as the head and the first body bytes
@@ -314,7 +328,7 @@ impl Property for P {
         "C08"
     }
     fn rule(&self) -> String {
-        "Content-Length N (stratified sweep of 1..=70000 plus u32/u64 extremes): payload of N bytes followed by the head of a next response, delivered under random arrival schedules and output sizes (0, 1, tiny, exact, big); every read must move exactly min(window, space, remaining) bytes unchanged, never more than N in total, complete <=> N delivered, a read after completion takes nothing. Close-delimited: every offered byte passes unchanged, can_proceed() at every point, leaving at any time leads to Cleanup with must-close and a reason. class = (window vs remaining) x (space vs window).".into()
+        "Content-Length N (stratified sweep of 1..=70000 plus u32/u64 extremes): payload of N bytes followed by the head of a next response, delivered under random arrival schedules and output sizes (0, 1, tiny, exact, big); every read must move exactly min(window, space, remaining) bytes unchanged, never more than N in total, complete <=> N delivered, a read after completion takes nothing. Close-delimited: every offered byte passes unchanged, can_proceed() at every point, leaving at any time leads to Cleanup with must-close and a reason. The length field stands among other fields (empty values before it, fields after it), in three spellings of its name and with optional whitespace. class = (window vs remaining) x (space vs window).".into()
     }
     fn assumptions(&self) -> Vec<String> {
         vec!["N = 0 never reaches the body state (C06) and is not part of this workload".into()]
